@@ -7,7 +7,8 @@ replay = queryjobs.replay
 key = queryjobs.key
 # the memoised counters are only reachable (and documented to work) without ad-hoc counting or with ad-hoc model counting:
 # the queries are therefore also decided on MIR dumped without any counting feature and with adhoccountmodels
-SETS = [tuple(sorted(build.DEFAULT_FEATURES)), ('frontend', 'variablelist'), ('adhoccounting', 'adhoccountmodels', 'variablelist')]
+# the third set is also the one without the variablelist feature: supports are then computed by traversal instead of read from the per-node lists
+SETS = [tuple(sorted(build.DEFAULT_FEATURES)), ('frontend', 'variablelist'), ('adhoccounting', 'adhoccountmodels')]
 def validate(ctx, tier, seed): return queryjobs.validate_features(ctx, tier, seed, SETS[:2])
 def spec(ctx, tier, seed):
     keys = [ctx.engine(s) for s in SETS]
@@ -24,6 +25,6 @@ def spec(ctx, tier, seed):
             'extra_coverage': {'feature_sets': [build.fkey(s) for s in SETS]},
             'allowed_status': ('ok', 'panic'),
             'bounds': 'diagrams from symbolic truth tables: all functions of 2 variables, 3-variable (thorough: 4-variable) families with one symbolic table in seeded '
-                      'contexts; all goal values and goal variables 0..n; ModelCounts::minimum/more_models on unconstrained 64-bit counts (full width). Feature sets: default, no counting feature (naive + memoised counters), adhoccountmodels; '
+                      'contexts; all goal values and goal variables 0..n; ModelCounts::minimum/more_models on unconstrained 64-bit counts (full width). Feature sets: default, no counting feature (naive + memoised counters), adhoccountmodels without variablelist; '
                       'memoised model counting is exercised only where documented to work.',
             'outside': 'path cubes of the two constant diagrams (Bdd::interpretations returns no cube for a constant; its callers never pass one); the remaining feature sets are C12'}
